@@ -54,6 +54,7 @@ struct MarchResult {
   bool tie_at_wall = false; // target depth reached within round-off of a wall
   bool next_wall_is_box_face = false; // absorbed in a cell whose next wall along the ray is a non-periodic box face
   bool wrap_into_finer = false; // crossed a periodic face into a cell smaller than the one it left
+  bool near_edge = false; // some step had two exits within 1e-9 (ray through a cell edge/vertex)
   bool capped = false;
   int steps = 0;
   Q min_abs_dir = 1;
